@@ -1,8 +1,9 @@
 import GnarkVerif.Proofs.FieldLoopsGen
 import GnarkVerif.Props.C01
+import GnarkVerif.Props.C01_chains
 import Mathlib.Algebra.Field.Basic
 /-
-C01_loops_gen — tie T for the data-dependent loops of the field packages: `BatchInvert`.
+C01_loops_gen — tie T for the data-dependent loops of the field packages: `BatchInvert`, and the wrapper `Legendre`.
 
 Gen/Imp/FieldLoops.lean is REGENERATED on every run (tools/goslp/imp_fieldloops.go, sub-pass imp:FieldLoops) from
 `func BatchInvert(a []Element) []Element` of element.go of ALL 23 field packages, statement by statement; the translator is fatal unless the
@@ -17,6 +18,9 @@ PARAMETERS of the generated defs (not translated), with their ASSUMED behaviour 
     or with the operations of an arbitrary field (`C01gen_batchInvert_field`);
   * `bsNew`, `bsSet`, `bsTest` — `bitset.New / Set / Test` of github.com/bits-and-blooms/bitset (outside /repo): ASSUMED
     `Test (New n) j = false` and `Test (Set b i) j = (i = j ∨ Test b j)` for indices ≥ 0 (`FieldLoopsGen.BitsOK`).
+`Legendre` (same file, same 23 packages): PARAMETERS `isOne` (`Element.IsOne`), `legendreExp` = the exponentiation to (q-1)/2 that the packages
+write `l.expByLegendreExp(*z)` (addition chain, exponent pinned per package by Props/C01_chains `legendre_expo`; `C01gen_legendre_chain`) or
+`l.Exp(*z, _bLegendreExponentElement)` (stark-curve/fr; the value of that package variable is ASSUMED to be (q-1)/2).
 Not modelled: integer overflow of `int`, `uint(i)` is the identity for the checked non-negative arguments, out-of-range panics.
 
 Abstraction function and invariants: Proofs/FieldLoopsGen.lean (`res` = finished prefix ++ untouched tail; `ZInv`).
@@ -87,6 +91,43 @@ theorem C01gen_batchInvert_abs [Fact p.q.Prime] (h : p.OK) (hb : BitsOK bsNew bs
   exact (C01_inv p h x (hxs x hx)).2
 example : (BatchInvert 0 (one p251) (mul p251) (inv p251) (fun x => decide (x = 0)) fnNew fnSet fnTest [3, 0, 250]).map (abs p251)
     = [3, 0, 250].map (fun x => (abs p251 x)⁻¹) := C01gen_batchInvert_abs p251 fnNew fnSet fnTest ok251 fnBitsOK [3, 0, 250] (by decide)
+
+/-! ### Legendre -/
+
+/-- REFINEMENT: the regenerated `Legendre`, with `legendreExp` read as the model's exponentiation to `(q-1)/2`, IS the model's `legendre`
+(the Go text tests the POWER for zero, the model tests the argument: the same for canonical arguments, `q` an odd prime) -/
+theorem C01gen_legendre_eq_model [Fact p.q.Prime] (h : p.OK) (x : Nat) (hx : x < p.q) :
+    Legendre 0 (fun y => decide (y = 0)) (fun y => decide (y = one p)) (fun y => expNat p y ((p.q - 1) / 2)) x = legendre p x := by
+  have hn : (p.q - 1) / 2 ≠ 0 := by have := h.q_gt; have := h.q_odd; omega
+  obtain ⟨h1, h2⟩ := C01_expNat p h x ((p.q - 1) / 2) hx
+  have hz : expNat p x ((p.q - 1) / 2) = 0 ↔ x = 0 := by
+    rw [← abs_eq_zero_iff p h _ h1, h2, pow_eq_zero_iff hn, abs_eq_zero_iff p h x hx]
+  unfold Legendre legendre
+  by_cases e : x = 0
+  · subst e; simp [hz.2 rfl]
+  · have hne : expNat p x ((p.q - 1) / 2) ≠ 0 := fun e' => e (hz.1 e')
+    simp [e, hne]
+example : Legendre 0 (fun y => decide (y = 0)) (fun y => decide (y = one p13)) (fun y => expNat p13 y ((p13.q - 1) / 2)) 5 = legendre p13 5 :=
+  C01gen_legendre_eq_model p13 ok13 5 (by decide)
+
+/-- the same with `legendreExp` read as ANY translated addition chain whose exponent is `(q-1)/2` (per package: `legendre_expo` of
+Props/C01_chains) -/
+theorem C01gen_legendre_chain [Fact p.q.Prime] (h : p.OK) (c : GV.Chain.Chain) (hc : GV.Chain.expoNat c = some ((p.q - 1) / 2))
+    (x : Nat) (hx : x < p.q) :
+    Legendre 0 (fun y => decide (y = 0)) (fun y => decide (y = one p)) (GV.Chain.eval (GV.Chain.montOps p) c) x = legendre p x := by
+  rw [← C01gen_legendre_eq_model p h x hx]
+  unfold Legendre
+  rw [(GV.Chain.C01_chain_mont p h c _ hc x hx).2.2]
+
+/-- C01_legendre transferred to the generated code: 0 exactly on 0, 1 exactly on the nonzero squares, -1 exactly on the non-squares -/
+theorem C01gen_legendre [Fact p.q.Prime] (h : p.OK) (x : Nat) (hx : x < p.q) :
+    let L := Legendre 0 (fun y => decide (y = 0)) (fun y => decide (y = one p)) (fun y => expNat p y ((p.q - 1) / 2)) x
+    (L = 0 ↔ x = 0) ∧ (L = 1 ↔ IsSquare (abs p x) ∧ abs p x ≠ 0) ∧ (L = -1 ↔ ¬ IsSquare (abs p x)) := by
+  intro L
+  have e : L = legendre p x := C01gen_legendre_eq_model p h x hx
+  rw [e]; exact C01_legendre p h x hx
+example : Legendre 0 (fun y => decide (y = 0)) (fun y => decide (y = one p13)) (fun y => expNat p13 y ((p13.q - 1) / 2)) 0 = 0 :=
+  ((C01gen_legendre p13 ok13 0 (by decide)).1).2 rfl
 
 end model
 
